@@ -172,6 +172,7 @@ static bool mbuf_has_complete_hdr(struct mbuf *b)
 static bool mbuf_is_hdr_valid(struct mbuf *b)
 {
     return  mbuf_has_complete_hdr(b) &&
+	mbuf_complete_payload_len(b) > 0 &&
 	mbuf_complete_payload_len(b) <= MBUF_MSG_MAX;
 }
 
